@@ -49,7 +49,7 @@ def bases(ctx, n, salt="base"):
 
 
 def nbases(ctx):
-    return 40 if ctx.tier == "quick" else 200
+    return 24 if ctx.tier == "quick" else 200
 
 
 def render_plant(t, p):
@@ -125,7 +125,7 @@ def tie(ctx):
     bs = bases(ctx, nbases(ctx))
     stats = collections.Counter()
     r = vlib.rng(ctx.seed, "c03-tie")
-    per = 60 if ctx.tier == "quick" else 80
+    per = 40 if ctx.tier == "quick" else 80
     for bi, (t, g) in enumerate(bs):
         cases.append(("base%d" % bi, tg.case_line(tg.render(t))))
         for k, v in g.stats.items():
